@@ -72,6 +72,12 @@ def chooser(spec):
                 return min(15, harm[1] + vary * li)
             if base == "IDF038":
                 return max(0, min(15, harm[2] + vary * li * (1 if li % 2 == 0 else -1)))
+        if mode[0] == 'nestzero':
+            # nested counters: the first parent gets an EMPTY inner group, later parents two items; top-level counters three
+            parts = name.rsplit("_", 1)
+            if len(parts) == 2 and parts[1].isdigit() and len(parts[1]) >= 2:
+                return 0 if int(parts[1]) == 1 else min(2, top)
+            return min(3, top)
         if mode[0] == 'uniform':
             return min(mode[1], top)
         if mode[0] == 'seeded':
@@ -106,6 +112,23 @@ def counter_keys(ident):
     return seen
 
 
+def nested_counters(ident):
+    tb = ol.tables()
+    out = []
+
+    def scan(d):
+        if not isinstance(d, dict):
+            return
+        for _, v in d.items():
+            if isinstance(v, tuple) and len(v) == 2:
+                c, sub = v
+                if isinstance(c, str) and "+" in c:
+                    out.append(c)
+                scan(sub)
+    scan(tb['payloads'][ident])
+    return out
+
+
 def structures(ident, tier, seed=0):
     """list of structure specs for one identity"""
     k = kind_of(ident)
@@ -114,7 +137,8 @@ def structures(ident, tier, seed=0):
         if tier == 'quick':
             out += [dict(nsat=0, nsig=0, cellmask='zero'), dict(nsat=1, nsig=1, cellmask='ones'), dict(nsat=2, nsig=1, cellmask=seed + 2),
                     dict(nsat=2, nsig=2, cellmask=seed + 5, maskmode='value', seed=seed),
-                    dict(nsat=3, nsig=2, cellmask=seed + 6, maskmode='value', seed=seed + 1)]
+                    dict(nsat=3, nsig=2, cellmask=seed + 6, maskmode='value', seed=seed + 1),
+                    dict(nsat=13, nsig=5, cellmask=seed + 8, maskmode='value', seed=seed + 2)]      # 65 cells: wider than one machine word
         else:
             out += [dict(nsat=0, nsig=0, cellmask='zero'), dict(nsat=1, nsig=0, cellmask='zero'),
                     dict(nsat=0, nsig=1, cellmask='zero'), dict(nsat=1, nsig=1, cellmask='ones'),
@@ -138,6 +162,8 @@ def structures(ident, tier, seed=0):
             out += [dict(mode=('uniform', c)) for c in cs]
             out.append(dict(mode=('seeded', 2), seed=seed + 1))
             out.append(dict(mode=('seeded', 3), seed=seed + 4))
+            if any("+" in str(c) for c in nested_counters(ident)):
+                out.append(dict(mode=('nestzero',)))
             if tier != 'quick':
                 out += [dict(mode=('seeded', 4), seed=seed + s) for s in (2, 3)]
                 out += [dict(mode=('maxone', key)) for key in keys]
